@@ -340,10 +340,63 @@ CUSTOM_CAL = "\r\n".join([
     "RDATE;TZID=Custom/C20:20240602T100000,20240603T100000", "END:VEVENT", "END:VCALENDAR", ""])
 
 
+_UNIQ = [0]
+
+
+def assembled_calendar(kind):
+    """A calendar with a VTIMEZONE of a never-seen id put together through the API from separately read observances (reading
+    an observance alone converts nothing), so that the first conversion happens when the COPY is parsed."""
+    import os
+    from icalendar.cal import Timezone, TimezoneStandard, TimezoneDaylight
+    _UNIQ[0] += 1
+    tzid = f"Custom/C20-{os.getpid()}-{_UNIQ[0]}"
+    until = ";UNTIL=20301027T010000Z" if kind == "assembled-until" else ""
+    extra = ["TZNAME;LANGUAGE=en:CST", "COMMENT;X-P=1:c"] if kind == "assembled-params" else ["TZNAME:CST"]
+    std = TimezoneStandard.from_ical("\r\n".join(["BEGIN:STANDARD", "DTSTART:19701025T030000", "TZOFFSETFROM:+0200", "TZOFFSETTO:+0100"] + extra +
+                                                  [f"RRULE:FREQ=YEARLY{until};BYDAY=-1SU;BYMONTH=10", "END:STANDARD", ""]))
+    dst = TimezoneDaylight.from_ical("\r\n".join(["BEGIN:DAYLIGHT", "DTSTART:19700329T020000", "TZOFFSETFROM:+0100", "TZOFFSETTO:+0200", "TZNAME:CDT",
+                                                  f"RRULE:FREQ=YEARLY{until.replace('1027', '0331')};BYDAY=-1SU;BYMONTH=3", "RDATE:19690330T020000,19680331T020000",
+                                                  "X-LIC-LOCATION:Somewhere", "END:DAYLIGHT", ""]))
+    tz = Timezone()
+    tz.add("tzid", tzid)
+    tz.add_component(std)
+    tz.add_component(dst)
+    c = Calendar()
+    c.add("version", "2.0")
+    c.add_component(tz)
+    ev = Event()
+    ev.add("uid", "z")
+    ev.add("summary", "uses the assembled zone by name only")
+    ev["DTSTART"] = vDDDTypes(datetime(2024, 6, 1, 10))
+    ev["DTSTART"].params["TZID"] = tzid
+    c.add_component(ev)
+    return c
+
+
 def run_zone(case):
     _, provider, source = case
     env.use_provider(provider)
     fails = []
+    if source.startswith("assembled"):
+        c = assembled_calendar(source)
+        ical = c.to_ical()
+        try:
+            d = Calendar.from_ical(ical)
+        except Exception as e:  # noqa: BLE001
+            return {"state": ("zone", provider, source, "parse-raises"), "trans": 2, "nontrivial": True, "outcome": "FAIL",
+                    "fails": [fail("assembled-zone:parse-raises", case, "a copy", f"{type(e).__name__}: {e}")]}
+        # compare everything except the event's DTSTART (the copy's is zoned by the definition, the original's only names it)
+        for x in (c, d):
+            x.walk("VEVENT")[0].pop("DTSTART")
+        if eq(c, d) is not True or eq(d, c) is not True:
+            fails.append(fail("assembled-zone:parse-copy-not-equal", case, True, (eq(c, d), eq(d, c))))
+        if d.to_ical() != c.to_ical():
+            fails.append(fail("assembled-zone:parse-copy-serialises-differently", case, c.to_ical()[:400], d.to_ical()[:400]))
+        vt = d.walk("VTIMEZONE")[0]
+        if [s_.name for s_ in d.walk()] != [s_.name for s_ in c.walk()] or len(vt.subcomponents) != 2:
+            fails.append(fail("assembled-zone:walk-differs", case, [s_.name for s_ in c.walk()], [s_.name for s_ in d.walk()]))
+        return {"state": ("zone", provider, source), "trans": 4, "nontrivial": True, "fails": fails,
+                "outcome": "zone-ok" if not fails else "FAIL"}
     if source == "custom":
         c = Calendar.from_ical(CUSTOM_CAL)
     else:
@@ -527,7 +580,7 @@ def run(ctx):
 
     def gen_zone():
         for provider in env.PROVIDERS:
-            for source in ("custom", "zoneinfo", "pytz", "dateutil"):
+            for source in ("custom", "zoneinfo", "pytz", "dateutil", "assembled-plain", "assembled-until", "assembled-params"):
                 yield ("zone", provider, source)
 
     ctx.explore("trees", gen_trees, run_case)
